@@ -778,8 +778,10 @@ func (r *c11run) writer(s *c11stream, hookTrigger bool) {
 		mustFail := r.observed[s.wrSide][s.spec.Conn].Load()
 		s.writeAfterErr.Store(mustFail)
 		s.started.Add(int64(nf))
-		r.startedWrites[s.wrSide].Add(1)
+		// (first active, then started; the close snapshot reads started first, then active: a Write
+		// that is counted as started before the snapshot is then also seen as active, or it is over)
 		r.activeWrites[s.wrSide].Add(1)
+		r.startedWrites[s.wrSide].Add(1)
 		s.inWriteSince.Store(time.Now().UnixNano())
 		n, err := s.wr.Write(buf[:l])
 		s.inWriteSince.Store(0)
@@ -925,8 +927,10 @@ func (r *c11run) closeMux(side, closers, repeat int, what string) {
 	var aX int32
 	var sX int64
 	if first {
-		aX, sX = r.activeWrites[side].Load(), r.startedWrites[side].Load()
-		cl.aY, cl.sY = r.activeWrites[y].Load(), r.startedWrites[y].Load()
+		sX = r.startedWrites[side].Load()
+		aX = r.activeWrites[side].Load()
+		cl.sY = r.startedWrites[y].Load()
+		cl.aY = r.activeWrites[y].Load()
 		cl.recvAll = true
 		for _, s := range r.streams {
 			if s.wrSide == y && (s.readerExited.Load() || s.received.Load() < s.started.Load()) && s.started.Load() > 0 {
